@@ -198,9 +198,33 @@ func init() {
 				}
 			}
 		}
+		// several items on one side of a comparison: every pair is examined in order, and a pair that
+		// cannot be compared without WithTZ ends the predicate whatever follows it
+		seqs := [][2]string{{"2015-08-02T12:34:56", "2015-08-02T12:34:56Z"}, {"2015-08-02T12:34:56Z", "2015-08-02T12:34:56"},
+			{"2014-01-01T00:00:00Z", "2013-01-01"}, {"12:00:00", "2015-08-02"}, {"2015-08-02", "2016-01-01"}}
+		for _, sq := range seqs {
+			vars := []wire.Var{{K: wire.Bytes("a"), V: wire.Arr(wire.StrV(sq[0]), wire.StrV(sq[1]))}, {K: wire.Bytes("b"), V: wire.StrV("2015-08-02T12:34:57Z")}}
+			l := []wire.Node{{K: "var", S: wire.Bytes("a")}, {K: "anyarr"}, dtNode("datetime", -1)}
+			r := append(append([]wire.Node{}, vb...), dtNode("datetime", -1))
+			for _, op := range []string{"lt", "eq", "ne"} {
+				add([]wire.Node{{K: "bin", Op: op, L: l, R: r}}, vars, true)
+				add([]wire.Node{{K: "bin", Op: op, L: r, R: l}}, vars, true)
+				c := wire.Node{K: "bin", Op: op, L: []wire.Node{{K: "cur"}, {K: "anyarr"}, dtNode("datetime", -1)}, R: r}
+				add([]wire.Node{{K: "var", S: wire.Bytes("a")}, {K: "filter", P: &c}}, vars, false)
+			}
+		}
+		// steps after a datetime method (also where only existence is asked)
+		for _, t := range []string{"2015-08-02", "2015-08-02T12:34:56Z", "12:34:56", "2023-08-15T12:34:56+05:30"} {
+			vars := []wire.Var{{K: wire.Bytes("a"), V: wire.StrV(t)}, {K: wire.Bytes("b"), V: wire.StrV("2000-01-01T00:00:00Z")}}
+			c := wire.Node{K: "bin", Op: "lt", L: []wire.Node{{K: "cur"}}, R: append(append([]wire.Node{}, vb...), dtNode("timestamp_tz", -1))}
+			add(append(append([]wire.Node{}, va...), dtNode("timestamp_tz", -1), wire.Node{K: "filter", P: &c}), vars, false)
+			ty := wire.Node{K: "bin", Op: "eq", L: []wire.Node{{K: "cur"}}, R: []wire.Node{{K: "str", S: wire.Bytes("date")}}}
+			add(append(append([]wire.Node{}, va...), dtNode("datetime", -1), wire.Node{K: "method", Name: "type"}, wire.Node{K: "filter", P: &ty}), vars, false)
+			add(append(append([]wire.Node{}, va...), dtNode("datetime", -1), wire.Node{K: "key", S: wire.Bytes("x")}), vars, false)
+		}
 		rc.cov("exhaustive", true)
 		rc.cov("rule", "grid of 222 ISO-8601 strings (five types; offsets Z, +00, -04, -04:30, +05:30, -12, +14; day / month / year / leap-day boundaries 0001-01-01 .. 9999-12-31; 0..9 fractional digits) plus 22 malformed strings and non-string items x six datetime methods, with .type() and .string(), precisions 0..7 x {WithTZ, not} x context zones {UTC, +05:30, America/New_York} (thorough also -04:00); pairwise comparisons (every 5th string, thorough every 2nd, and all pairs of 25 values around the hours America/New_York skips and repeats and around a day boundary; 20 strings whose fraction lies exactly half way at some precision x four typed methods x precisions 0..7) with < == >= through .datetime() and after explicit casts to the common type; every result judged against spec/DateTime.tla")
 		rc.cov("universe", map[string]any{"strings": len(strs), "cases": len(u.Cases)})
-		rc.execFamily(u, "C17", "C01")
+		rc.execFamily(u, "C17", "C01", "C06") // C06: Exists / First / Match about the same datetime path
 	}
 }
